@@ -40,7 +40,6 @@ ASSUMPTIONS = [
     "the request text spells a graph's template/data triples as one GRAPH group or (case field split) as two interleaved "
     "GRAPH groups; the model has one block per graph",
     "a graph absent from the store is the empty graph (no failure demanded for missing graphs)",
-    "all graph names minted for an unbound GRAPH ?g are collapsed into graph id 900",
 ]
 RULE = (
     "1-3 operations over 1-3 graphs (graph ids 1,2,5 addressable, 3 blank-node named), 3 subjects x 2 predicates x 5 objects; "
@@ -324,7 +323,7 @@ class C10(Suite):
     case_ty = "case"
     obs_ty = "obs"
     kf = "kf"
-    kf_ids = {1: "F10a", 2: "F10b", 3: "F10c", 4: "F10d", 5: "F10e", 6: "F10f", 7: "F10g", 8: "F10h"}
+    kf_ids = {1: "F10f"}
     corr = ("update.evalUpdate/evalInsertData/evalDeleteData/evalDeleteWhere/evalModify/evalClear/evalDrop/evalAdd/"
             "evalMove/evalCopy/_graphAll/_graphOrDefault, evalutils._fillTemplate")
     quick_n = 900
@@ -337,9 +336,9 @@ class C10(Suite):
     def gen(self, rng, i):
         r = rng.random()
         fe = "cg" if r < 0.4 else ("ds" if r < 0.8 else ["g", rng.choice([1, 2])])
-        # the default switch is on; the defects of that mode (F10a/F10b) are known, so most of
-        # the budget goes to the mode in which the default graph is a real graph
-        union = rng.random() < 0.3
+        # both settings of SPARQL_DEFAULT_GRAPH_UNION (on is the default): since the repair of F10a/F10b
+        # it only changes what WHERE reads outside GRAPH
+        union = rng.random() < 0.5
         # spell graphs with two or more template/data triples as two separate GRAPH groups, interleaved
         split = rng.random() < 0.35
         cids = [0] + rng.sample([1, 2, 5, 3], rng.choice([0, 1, 2, 2, 3]))
@@ -370,14 +369,11 @@ class C10(Suite):
                 # depends on the (unspecified) order in which the engine enumerates the solutions
                 ops.append(self.gen_modify(rng, plain, allow_q and not plain, split))
                 ins = ops[-1][5]
-                # new nodes (template blank nodes, or the graph minted for an unbound GRAPH ?g, F10e)
-                # must not be picked up by a later WHERE: their names cannot cross the boundary
-                seen_bnode = tmpl_has_bnode(ins) or (ins is not None and any(g[0] == "v" for g, _ in ins["q"]))
+                # new template blank nodes must not be picked up by a later WHERE: their names cannot
+                # cross the boundary
+                seen_bnode = tmpl_has_bnode(ins)
             elif x < 0.55 and not seen_bnode:
                 tm = gen_tmpl(rng, False, allow_q, legal_only=True, fat=split)
-                # F10h: with two triple patterns outside GRAPH rdflib matches lazily while deleting and the
-                # outcome depends on the engine's enumeration order, which the model cannot follow
-                tm["t"] = tm["t"][:1]
                 ops.append(["delwhere", tm])
             elif x < 0.65:
                 ops.append(["insdata"] + list(gen_data(rng, allow_q, split)))
